@@ -64,7 +64,8 @@ Proof. exact timed_due_proof. Qed.
 Print Assumptions timed_wait_fires_at_deadline.
 
 (* a TCP connect attempt that stays silent is kept for exactly CONNECT_TIMEOUT ms: not abandoned while
-   elapsed <= 5000, abandoned (next candidate, or ETIMEDOUT disconnect) at the first iteration after *)
+   elapsed <= 5000; at the first iteration after, its socket is closed and either no candidate is left
+   (ETIMEDOUT disconnect) or the next candidate is tried with a wait of its own *)
 Theorem connect_wait_exact :
   forall s now rd,
     crashed s = false -> st s = Connecting -> cur_ep s = EpHang ->
@@ -72,7 +73,10 @@ Theorem connect_wait_exact :
     (now - stamp s <= CONNECT_TIMEOUT -> st s' = Connecting /\ cands s' = cands s /\ stamp s' = stamp s /\
                                         forallb (fun o => match o with ODisconnect _ _ => false | OSockClose => false | _ => true end) outs = true) /\
     (CONNECT_TIMEOUT < now - stamp s ->
-       (st s' = Disconnected /\ In (ODisconnect ETIMEDOUT (stream_error s')) outs) \/
-       (st s' <> Disconnected /\ stamp s' = now /\ In OSockClose outs)).
+       In OSockClose outs /\
+       match snd (sock_connect (cands s)) with
+       | None => st s' = Disconnected /\ In (ODisconnect ETIMEDOUT (stream_error s')) outs
+       | Some (k, r) => k = EpHang -> st s' = Connecting /\ stamp s' = now /\ cands s' = r /\ cur_ep s' = EpHang
+       end).
 Proof. exact connect_wait_proof. Qed.
 Print Assumptions connect_wait_exact.
